@@ -19,16 +19,20 @@ import json
 class MyErr(Exception): pass
 def boom(exc):
     raise exc
+def noted(exc, *notes):
+    for n in notes:
+        exc.add_note(n)
+    return exc
 '''
 CLASSES = {'builtin': 'ValueError', 'keyerr': 'KeyError', 'dotted': 'json.JSONDecodeError', 'moduser': 'MyErr',
            'docuser': 'DErr', 'os': 'FileNotFoundError'}
 MSGS = {'plain': "'msg one'", 'empty': None, 'multi': "'line1\\nline2'", 'colon': "'a: b: c'", 'dots': "'a...b'",
-        'num': '3'}
+        'num': '3', 'noted': "'msg one'"}      # 'noted': the exception carries a note (PEP 678): its report has two lines
 HDR = 'Traceback (most recent call last):'
 
 DIMS = [
     ('cls', ['builtin', 'keyerr', 'dotted', 'moduser', 'docuser', 'os']),
-    ('msg', ['plain', 'empty', 'multi', 'colon', 'dots', 'num']),
+    ('msg', ['plain', 'empty', 'multi', 'colon', 'dots', 'num', 'noted']),
     ('src', ['raise', 'call', 'helper', 'noraise']),
     ('want', ['none', 'exact', 'stack', 'dotstack', 'wrongmsg', 'wrongtype', 'header', 'nontb', 'ellmsg', 'nameonly']),
     ('flags', [(), ('+IGNORE_EXCEPTION_DETAIL',), ('-ELLIPSIS',), ('+IGNORE_EXCEPTION_DETAIL', '-ELLIPSIS'),
@@ -40,8 +44,12 @@ DIMS = [
 def exc_expr(cls, msg):
     c = CLASSES[cls]
     if cls == 'dotted':
-        return "%s(%s, 'doc', 0)" % (c, MSGS[msg] or "''")
-    return '%s(%s)' % (c, MSGS[msg] or '')
+        e = "%s(%s, 'doc', 0)" % (c, MSGS[msg] or "''")
+    else:
+        e = '%s(%s)' % (c, MSGS[msg] or '')
+    if msg == 'noted':
+        e = "noted(%s, 'note a')" % e
+    return e
 
 
 _REF = {}
@@ -54,7 +62,8 @@ def ref_excline(expr):
         try:
             exec('raise ' + expr, ns)
         except Exception as ex:
-            _REF[expr] = (traceback.format_exception_only(type(ex), ex)[-1], type(ex).__name__)
+            # the whole report of the exception itself: 'Type: message' (possibly several lines) plus its notes
+            _REF[expr] = (''.join(traceback.format_exception_only(type(ex), ex)), type(ex).__name__)
     return _REF[expr]
 
 
